@@ -24,7 +24,7 @@ int eval_expression(AsmContext *asm_context, int *num) { *num = 0; return -1; }
 int eval_expression(AsmContext *asm_context, Var &var)
 {
   g_tok_n = 1;                                  /* the operand's tokens are consumed */
-  if (g_unresolved) { var.set_int(0); return -1; }
+  if (g_unresolved) { var.set_int((uint64_t)0); return -1; }
   var.set_int((uint64_t)g_value);
   return 0;
 }
